@@ -507,7 +507,12 @@ fn model_run(ops: &[[u32; 5]]) -> Vec<Emit> {
                 }
             }
             13 => out.push(Emit::U32(13, vec![(m.v[av] == m.v[bv]) as u32])),
-            14 => out.push(Emit::U32(14, vec![m.v[av].len() as u32, m.v[av].iter().fold(0u32, |x, y| x.wrapping_add(*y))])),
+            14 => {
+                for x in m.v[av].iter_mut() {
+                    *x = x.wrapping_add(1);
+                }
+                out.push(Emit::U32(14, vec![m.v[av].len() as u32, m.v[av].iter().fold(0u32, |x, y| x.wrapping_add(*y))]))
+            }
             15 => match b % 4 {
                 0 => out.push(Emit::U32(15, m.v[av].clone())),
                 1 | 2 => m.v[av].push(c),
